@@ -194,6 +194,9 @@ def _worker(prop, tier, verif_seed, wid, nworkers, budget_s, max_runs, known_sig
     i = start_index + wid
     seen_sigs = set()
     while time.time() < deadline and st["runs"] < max_runs:
+        # enumerating families (C09, C13) stop enumerating further placements of the
+        # current scenario shortly after the batch deadline (coverage only; never verdicts)
+        os.environ["VERIF_RUN_DEADLINE"] = repr(deadline + 10.0)
         try:
             res, rec = run_once(mod, tier, verif_seed, i)
         except Exception:
@@ -255,6 +258,7 @@ def _worker(prop, tier, verif_seed, wid, nworkers, budget_s, max_runs, known_sig
         if len(st["violations"]) >= 3:
             break
         i += nworkers
+    os.environ.pop("VERIF_RUN_DEADLINE", None)
     st["wall"] = time.time() - t0
     for k in ("digests", "nontrivial", "interleavings", "abstract"):
         st[k] = list(st[k])
